@@ -114,7 +114,7 @@ Proof. intros. apply nth_error_Some. congruence. Qed.
 Lemma conv_top_struct : forall g te T cur id tn fs st d,
     cache_find id st = None -> find_reg te tn = Some d ->
     conv (S g) te true (TStruct T) cur (SRec id tn fs) st =
-    do (b, st1) <- fold_left (fill_step (resolve g te (s_name d)) te T (conv g te false)) fs (Ok (cur, st)); Ok (b, st1).
+    do (b, st1) <- fold_left (fill_step (resolve_key g te (s_name d)) te T (conv g te false)) fs (Ok (cur, st)); Ok (b, st1).
 Proof. intros g te T cur id tn fs st d Hc Hr. simpl. rewrite Hc. simpl. rewrite Hr. simpl. reflexivity. Qed.
 
 Definition from_step (g : nat) (te : tenv) (h vals : list goval) (fields : list field)
@@ -142,7 +142,7 @@ Section Round.
   Hypothesis Hdecl : scalar_decl d = true.
 
   Let fields := s_fields d.
-  Let res_ := resolve (S f) te T.
+  Let res_ := resolve_key (S f) te T.
 
   Lemma Hall : forallb (fun fld => negb (f_emb fld) && scalar_ty (f_type fld)) fields = true.
   Proof. unfold scalar_decl in Hdecl. apply andb_true_iff in Hdecl. apply Hdecl. Qed.
